@@ -151,6 +151,12 @@ func RouteSpecs(thorough bool) []*spec.Spec {
 		)}}
 		out = append(out, withCell(spec.One("route_delete_query", f), "route/unit=delete_with_query_only", "extended", "valid", "route"))
 	}
+	// H: files whose only URL-related feature is a query-annotated field on a body verb (one file per verb)
+	for _, verb := range []string{"POST", "PATCH", "PUT"} {
+		f := &spec.File{Messages: out1(spec.M("SearchReq", spec.F("q", "string").Q("q"), spec.F("limit", "int32").Q("limit"), spec.F("note", "string"))),
+			Services: []*spec.Service{spec.Svc("SearchService", "/api/v1", spec.RPC("Search", "SearchReq", "Out", verb, "/search"))}}
+		out = append(out, withCell(spec.One("route_bodyverb_query_"+lower(verb), f), "route/unit=body_verb_query_only,verb="+verb, "extended", "valid", "route"))
+	}
 	return out
 }
 
